@@ -66,6 +66,26 @@ def schedules(check, f, nw, cap, num, seed):
     return [list(s) for s in sorted(out)]
 
 
+def counterexample_schedules(check):
+    """TLC's counterexamples for the two named deviations (behaviours that end in an output showing another file's data), as
+    schedules: if the code had the deviation, forcing the real binary through them would show it in the outputs"""
+    import re
+    out = []
+    for dev in ("recycle", "workererrs"):
+        r = core.tlc("Cli", cfg(3, 2, 2, dev=dev, invs="PrintsOwnCex").replace("VIEW view\n", ""), workers=1, allow_violation=True, timeout=600)
+        if r.violated != "PrintsOwnCex":
+            raise core.InfraError("Cli.tla: no counterexample for deviation %s" % dev)
+        check.add_tlc("Cli deviation %s: counterexample to PrintsOwn (schedule for replay)" % dev, r, kind="counterexample")
+        cex = [o["cex"] for o in r.out if isinstance(o, dict) and "cex" in o]
+        if not cex:
+            raise core.InfraError("Cli.tla: counterexample without a schedule")
+        sched = [lab(x) for x in cex[0]]
+        if len(sched) < 8:
+            raise core.InfraError("Cli.tla: counterexample schedule not understood: %r" % cex[0])
+        out.append((dev, sched))
+    return out
+
+
 def lab(x):
     if x[0] == "w":
         return "w%d:%s" % (x[1], x[2])
@@ -263,6 +283,10 @@ def check_pipeline(check, wp, sources, ver, tier, rng, label="cli-spec"):
             flags = [["-pb"], ["-d", "-p", "-e"], ["-pb", "-d", "-p", "-e"]][si % 3]
             rc, out, err, after, log = run_traced(binary, files, flags, ver, procs, sched=s)
             pl = parse_log(log, [n for n, _ in files])
+            if pl["stall"] is not None:
+                # a stall may be the machine (the gates give up after 4 s without progress): once more, with 30 s
+                rc, out, err, after, log = run_traced(binary, files, flags, ver, procs, sched=s, stall_ms=30000, timeout=300)
+                pl = parse_log(log, [n for n, _ in files])
             nsched += 1
             check.count(f)
             got = [e["label"] for e in sorted(pl["events"], key=lambda e: e["e"])][:len(s)]
@@ -276,6 +300,22 @@ def check_pipeline(check, wp, sources, ver, tier, rng, label="cli-spec"):
                 continue
             for sig, rep in cli.judge(files, ex, rc, out, err, after, flags):
                 bad.append((dict(sig, flags=" ".join(flags), under="forced-schedule"), dict(rep, schedule=s, gomaxprocs=procs)))
+    # the counterexamples of the named deviations, replayed with big files only (whatever threshold a buffer scheme might have)
+    for dev, s in counterexample_schedules(check):
+        pool_ = bigs if len(bigs) >= 3 else small
+        for flags in (["-pb"], ["-d", "-p", "-e"]):
+            pick = rng.sample(pool_, 3)
+            files = [("f%04d.php" % i, src.encode("latin-1")) for i, (src, _) in enumerate(pick)]
+            rc, out, err, after, log = run_traced(binary, files, flags, ver, 2, sched=s, stall_ms=30000, timeout=300)
+            pl = parse_log(log, [n for n, _ in files])
+            nsched += 1
+            check.count(3)
+            got = [e["label"] for e in sorted(pl["events"], key=lambda e: e["e"])][:len(s)]
+            if pl["stall"] is not None or got != s:
+                bad.append(({"class": "cli-schedule-not-followed", "at": "counterexample-" + dev}, {"schedule": s, "recorded": got, "stall": pl["stall"], "flags": flags}))
+                continue
+            for sig, rep in cli.judge(files, [e for _, e in pick], rc, out, err, after, flags):
+                bad.append((dict(sig, flags=" ".join(flags), under="counterexample-schedule-" + dev), dict(rep, schedule=s)))
     check.cov["cli_schedules_replayed"] = check.cov.get("cli_schedules_replayed", 0) + nsched
     # ---- impl -> spec: free-running traced runs validated by CliTrace.tla
     runs = [(8, 1, 2), (12, 2, 3), (12, 3, 2), (16, 4, 2)] if tier == "quick" else [(8, 1, 6), (12, 2, 10), (16, 3, 10), (24, 4, 10), (40, 2, 4), (40, 4, 4)]
